@@ -22,45 +22,67 @@ Qed.
 Lemma lift (P : cli -> bool) : forallb P all_cli = true -> forall r, P r = true.
 Proof. intros H r. exact (proj1 (forallb_forall P all_cli) H r (all_cli_complete r)). Qed.
 
-Lemma no_clobber_all : forallb (fun r => known r || no_clobber_b r) all_cli = true.
+(* the current tree (both writes guarded, facts regenerated from the source): no clobbering anywhere *)
+Lemma no_clobber_all : forallb no_clobber_b all_cli = true.
 Proof. vm_compute. reflexivity. Qed.
 
-Lemma no_clobber_outside_known : forall r, known r = false -> no_clobber_b r = true.
-Proof. intros r K. pose proof (lift _ no_clobber_all r) as H. cbv beta in H. rewrite K in H. exact H. Qed.
-
 Lemma no_clobber_prop :
-  forall r, known r = false ->
-  forall e p, In e (decide r) -> destructive e = Some p -> exists_before r p = true -> force r = true.
+  forall r e p, In e (decide r) -> destructive e = Some p -> exists_before r p = true -> force r = true.
 Proof.
-  intros r K e p He Hd Hx. pose proof (no_clobber_outside_known r K) as H.
-  unfold no_clobber_b in H. rewrite forallb_forall in H. specialize (H e He). rewrite Hd, Hx in H.
+  intros r e p He Hd Hx. pose proof (lift _ no_clobber_all r) as H.
+  unfold no_clobber_b, no_clobber_of in H. rewrite forallb_forall in H. specialize (H e He). rewrite Hd, Hx in H.
   destruct (force r); [reflexivity|discriminate].
 Qed.
 
-(* witnesses of the two known classes (replayed on the binary by ./check: corpus/C32.jsonl lines 1, 2) *)
+(* whatever the two guards are: clobbering only in the class of the missing guard *)
+Definition guard_class (sg fg : bool) (r : cli) : bool :=
+  (negb sg && known_sidecar r) || (negb fg && known_frag_init r).
+
+Lemma no_clobber_any_guards_all :
+  forallb (fun sg => forallb (fun fg =>
+    forallb (fun r => guard_class sg fg r || no_clobber_of (decide_g sg fg) r) all_cli) bools) bools = true.
+Proof. vm_compute. reflexivity. Qed.
+
+Lemma no_clobber_any_guards :
+  forall sg fg r, guard_class sg fg r = false ->
+  forall e p, In e (decide_g sg fg r) -> destructive e = Some p -> exists_before r p = true -> force r = true.
+Proof.
+  intros sg fg r K e p He Hd Hx.
+  pose proof no_clobber_any_guards_all as A.
+  rewrite forallb_forall in A. assert (Is : In sg bools) by fin. specialize (A sg Is).
+  rewrite forallb_forall in A. assert (If : In fg bools) by fin. specialize (A fg If).
+  pose proof (lift _ A r) as H. cbv beta in H. rewrite K in H. simpl in H.
+  unfold no_clobber_of in H. rewrite forallb_forall in H. specialize (H e He). rewrite Hd, Hx in H.
+  destruct (force r); [reflexivity|discriminate].
+Qed.
+
+(* the behaviour before the repairs, stated about [decide_g false false] *)
 Definition sidecar_witness : cli :=
   Build_cli true false OAbsent Different true false true SFile false false FNone false false false.
 Definition frag_init_witness : cli :=
   Build_cli true false ODir Different true false false SAbsent false false FGlob true false false.
 
-Lemma sidecar_refuted :
-  sidecar_write_guarded = false ->
-  exists r, realisable r = true /\ force r = false /\ In (Write PSidecar) (decide r) /\ exists_before r PSidecar = true.
-Proof. intro G. exists sidecar_witness. revert G. vm_compute. intuition congruence. Qed.
+Lemma old_sidecar_refuted :
+  realisable sidecar_witness = true /\ force sidecar_witness = false
+  /\ In (Write PSidecar) (decide_g false true sidecar_witness) /\ exists_before sidecar_witness PSidecar = true
+  /\ decide_g true true sidecar_witness = [Bail].
+Proof. vm_compute. intuition. Qed.
 
-Lemma frag_init_refuted :
-  frag_init_guarded = false ->
-  exists r, realisable r = true /\ force r = false /\ In (Write PFragInit) (decide r) /\ exists_before r PFragInit = true.
-Proof. intro G. exists frag_init_witness. revert G. vm_compute. intuition congruence. Qed.
+Lemma old_frag_init_refuted :
+  realisable frag_init_witness = true /\ force frag_init_witness = false
+  /\ In (Write PFragInit) (decide_g true false frag_init_witness) /\ exists_before frag_init_witness PFragInit = true
+  /\ decide_g true true frag_init_witness = [Write PFragSeg; Fail].
+Proof. vm_compute. intuition. Qed.
 
-(* the known classes are exact on realisable records: known <-> the property fails *)
-Lemma known_exact_all : forallb (fun r => implb (realisable r) (eqb (known r) (negb (no_clobber_b r)))) all_cli = true.
+(* on realisable records the old classes were exactly where the old decision clobbered *)
+Lemma old_known_exact_all :
+  forallb (fun r => implb (realisable r) (eqb (old_known r) (negb (no_clobber_of (decide_g false false) r)))) all_cli = true.
 Proof. vm_compute. reflexivity. Qed.
 
-Lemma known_exact : forall r, realisable r = true -> known r = negb (no_clobber_b r).
+Lemma old_known_exact : forall r, realisable r = true -> old_known r = negb (no_clobber_of (decide_g false false) r).
 Proof.
-  intros r R. pose proof (lift _ known_exact_all r) as H. cbv beta in H. rewrite R in H.
-  destruct (known r), (no_clobber_b r); try reflexivity; discriminate H.
+  intros r R. pose proof (lift _ old_known_exact_all r) as H. cbv beta in H. rewrite R in H.
+  destruct (old_known r), (no_clobber_of (decide_g false false) r); try reflexivity; discriminate H.
 Qed.
 
 (* a refusal by the tool itself (bail!) happens before anything is modified *)
